@@ -7,7 +7,7 @@ from . import calltree
 PROP = "C15"
 LEVEL = "exploration"
 BUDGET = {"quick": 300, "thorough": 1700}
-NCASES = {"quick": 1500, "thorough": 25000}
+NCASES = {"quick": 3000, "thorough": 40000}
 RULE = ("twin worlds from the same pre-state: world A evaluates call_batch(kwargs_list, raise_first_exception) or "
         "map_over_range over a generated call tree's root (nested, failing and repeated sub-calls beneath each element), "
         "world B evaluates the same elements one by one in order, catching exceptions; batches of length 0-8 with duplicates, "
